@@ -11,6 +11,7 @@ import itertools
 import json
 import mmap
 import os
+import pickle
 import sys
 import time
 import traceback
@@ -99,6 +100,55 @@ class Family:
         """Called once in every worker before the first case of this family."""
 
 
+class FreshFamily(Family):
+    """E4: every case is a short call history that is executed in its own child process, forked from a worker that was
+    started before any library call other than imports / the construction of the families and that never executes a
+    case itself.  Each history therefore starts from the import-time state of every module-level and class-level
+    variable of the library (caches, memo tables, defaults, selected chain): what the first call of a fresh
+    interpreter sees.  Inside one history the steps run in order in the same process, so state left behind by step i
+    is visible to step i+1 - and to nothing else.
+    """
+    engine = 'E4'
+    fresh = True
+    nontrivial_rule = 'every history'
+
+
+class StepHistories(FreshFamily):
+    """All sequences of <= maxlen steps over a pool of named steps.  A step is a function that makes library calls and
+    compares every answer with the reference (raises Viol); it returns a short label or None."""
+
+    def __init__(self, name, steps, maxlen_quick=2, maxlen_thorough=3, distinct=False):
+        self.name = name
+        self.steps = collections.OrderedDict(steps)
+        self.names = list(self.steps)
+        self.maxlen = {'quick': maxlen_quick, 'thorough': maxlen_thorough}
+        self.distinct = distinct
+
+    def shards(self, tier):
+        return list(range(len(self.names)))
+
+    def cases(self, shard, tier):
+        n = len(self.names)
+        first = self.names[shard]
+        for ln in range(1, self.maxlen[tier] + 1):
+            for rest in itertools.product(range(n), repeat=ln - 1):
+                seq = (first,) + tuple(self.names[i] for i in rest)
+                if self.distinct and len(set(seq)) != len(seq):
+                    continue
+                yield seq
+
+    def check(self, case):
+        labels = []
+        for i, nm in enumerate(case):
+            try:
+                r = self.steps[nm]()
+            except Viol as v:
+                v.msg = 'step %d (%s) of history %s: %s' % (i + 1, nm, list(case), v.msg)
+                raise
+            labels.append(str(r) if r is not None else 'ok')
+        return '/'.join(sorted(set(labels))), len(case) > 1
+
+
 class BFSFamily:
     """Explicit-state breadth-first search.  A state is the history (tuple of events) that reaches it.
 
@@ -169,6 +219,42 @@ def run_case(fam, case):
     return (r if r is not None else 'ok'), True, None
 
 
+def run_case_fresh(fam, case):
+    """run_case in a forked child; the calling worker stays in its pristine state"""
+    r, w = os.pipe()
+    pid = os.fork()
+    if pid == 0:
+        code = 0
+        try:
+            os.close(r)
+            try:
+                res = run_case(fam, case)
+            except HarnessError as e:
+                res = ('HARNESS', str(e))
+            with os.fdopen(w, 'wb') as f:
+                f.write(pickle.dumps(res))
+        except BaseException:  # noqa
+            code = 3
+        finally:
+            os._exit(code)
+    os.close(w)
+    with os.fdopen(r, 'rb') as f:
+        data = f.read()
+    _, status = os.waitpid(pid, 0)
+    if not data:
+        return 'VIOLATION', True, {'family': fam.name, 'case': jsonable(case), 'msg': 'the process executing this history died',
+                                   'expected': 'every call returns or raises', 'observed': 'wait status %d' % status, 'classifier': None}
+    res = pickle.loads(data)
+    if res[0] == 'HARNESS':
+        raise HarnessError(res[1])
+    return res
+
+
+def _noop(_):
+    time.sleep(0.05)
+    return os.getpid()
+
+
 def _worker_shard(args):
     fam_idx, shard, tier, slot, limit = args
     fam = _FAMS[fam_idx]
@@ -190,7 +276,7 @@ def _worker_shard(args):
     for case in it:
         if _CUR is not None and (fam.crashy or not (ncases & 63)):
             _publish(case)
-        rr = run_case(fam, case)
+        rr = run_case_fresh(fam, case) if getattr(fam, 'fresh', False) else run_case(fam, case)
         o, nontriv, v = rr[:3]
         n += rr[3] if len(rr) > 3 else 1
         ncases += 1
@@ -266,29 +352,31 @@ class Run:
         self.notes = []
 
     # -- execution of families ---------------------------------------------------------------------------
-    def run_families(self, fams):
+    def prepare(self, fams):
+        """Registers the families and, when some of them are FreshFamily (E4), starts their worker pool NOW - before the
+        oracle self-tests or anything else touches the library - so that those workers hold the import-time state."""
         global _SHM, _FAMS
         fams = [f for f in fams if f is not None]
         for f in fams:
             f.tier = self.tier              # visible in the forked workers
         _FAMS = dict(enumerate(fams))
         _SHM = mmap.mmap(-1, 1024 * 4096)
-        plain = [(i, f) for i, f in _FAMS.items() if isinstance(f, Family)]
-        bfs = [(i, f) for i, f in _FAMS.items() if isinstance(f, BFSFamily)]
-        jobs = []
-        slot = 0
-        for i, f in plain:
-            shards = list(f.shards(self.tier))
-            self.fam_stats[f.name] = {'engine': f.engine, 'shards': len(shards), 'evaluations': 0, 'nontrivial': 0,
-                                      'nontrivial_rule': f.nontrivial_rule, 'outcomes': collections.Counter(),
-                                      'violations': 0, 'first': None, 'last': None, 'cpu_s': 0.0}
-            for s in shards:
-                jobs.append((i, s, self.tier, slot % 4096, 0))
-                slot += 1
-        # VERIF_SEED only rotates the order in which shards are handed out
-        if jobs:
-            k = self.seed % len(jobs)
-            jobs = jobs[k:] + jobs[:k]
+        self.fresh_ex = None
+        if any(getattr(f, 'fresh', False) for f in fams):
+            self.fresh_ex = ProcessPoolExecutor(max_workers=NPROC, mp_context=_MP)
+            list(self.fresh_ex.map(_noop, range(NPROC)))       # fork start method: all workers are launched here
+        self._prepared = fams
+        return fams
+
+    def _kill(self, ex):
+        for proc in list(getattr(ex, '_processes', {}).values()):
+            try:
+                proc.kill()
+            except Exception:  # noqa
+                pass
+
+    def _run_jobs(self, ex, jobs):
+        """-> False if the watchdog fired"""
         # determinism self-test: the first cases of the first shard of every family are run twice, in two
         # different worker processes, and must give identical observation digests
         det_jobs = []
@@ -297,39 +385,67 @@ class Run:
             if j[0] not in seen:
                 seen.add(j[0])
                 det_jobs.append((j[0], j[1], j[2], j[3], 300))
-        with ProcessPoolExecutor(max_workers=NPROC, mp_context=_MP) as ex:
-            try:
-                a = list(ex.map(_worker_shard, det_jobs))
-                b = list(ex.map(_worker_shard, det_jobs))
-                for x, y in zip(a, b):
-                    if x['digest'] != y['digest'] or x['outcomes'] != y['outcomes']:
-                        # The harness owns every source of nondeterminism (verified on the unchanged tree over several
-                        # seeds), so observations that differ between two executions of the same cases in different
-                        # worker processes mean that the library's answers depend on hidden state left by earlier
-                        # calls (a cache, a shared default, a leaked global): a violation of the functional property.
-                        self.add_violation({'family': _FAMS[x['fam']].name, 'case': {'first_case': x['first'], 'cases': x['n']},
-                                            'msg': 'observations of the same cases differ between two worker processes: results depend on hidden state left by earlier calls',
-                                            'expected': x['outcomes'], 'observed': y['outcomes'], 'classifier': None})
-                self.selftest['determinism_replayed_cases'] = sum(x['n'] for x in a)
-                futs = {ex.submit(_worker_shard, j): j for j in jobs}
-                try:
-                    for fut in as_completed(futs, timeout=WATCHDOG_S[self.tier]):
-                        self._absorb(fut.result())
-                except FuturesTimeout:
-                    # watchdog: every enumerated space is finite and sized for minutes; a shard that is still running after
-                    # the budget means some call of the library does not terminate (or takes absurdly long) on a case
-                    stuck = [futs[f] for f in futs if not f.done()]
-                    self.caps_hit.append('watchdog: %d shard(s) not finished' % len(stuck))
-                    for j in stuck[:8]:
-                        raw = bytes(_SHM[j[3] * 1024:j[3] * 1024 + 1024]).rstrip(b'\0').decode(errors='replace')
-                        self.add_violation({'family': _FAMS[j[0]].name, 'case': {'shard': jsonable(j[1]), 'last_published_case': raw},
-                                            'msg': 'shard did not finish within the %d s watchdog: a library call does not terminate in reasonable time' % WATCHDOG_S[self.tier],
-                                            'expected': 'termination', 'observed': 'still running', 'classifier': None})
-                    for proc in list(getattr(ex, '_processes', {}).values()):
-                        try:
-                            proc.kill()
-                        except Exception:  # noqa
-                            pass
+        a = list(ex.map(_worker_shard, det_jobs))
+        b = list(ex.map(_worker_shard, det_jobs))
+        for x, y in zip(a, b):
+            if x['digest'] != y['digest'] or x['outcomes'] != y['outcomes']:
+                # The harness owns every source of nondeterminism (verified on the unchanged tree over several
+                # seeds), so observations that differ between two executions of the same cases in different
+                # worker processes mean that the library's answers depend on hidden state left by earlier
+                # calls (a cache, a shared default, a leaked global): a violation of the functional property.
+                self.add_violation({'family': _FAMS[x['fam']].name, 'case': {'first_case': x['first'], 'cases': x['n']},
+                                    'msg': 'observations of the same cases differ between two worker processes: results depend on hidden state left by earlier calls',
+                                    'expected': x['outcomes'], 'observed': y['outcomes'], 'classifier': None})
+        self.selftest['determinism_replayed_cases'] = self.selftest.get('determinism_replayed_cases', 0) + sum(x['n'] for x in a)
+        futs = {ex.submit(_worker_shard, j): j for j in jobs}
+        try:
+            for fut in as_completed(futs, timeout=WATCHDOG_S[self.tier]):
+                self._absorb(fut.result())
+        except FuturesTimeout:
+            # watchdog: every enumerated space is finite and sized for minutes; a shard that is still running after
+            # the budget means some call of the library does not terminate (or takes absurdly long) on a case
+            stuck = [futs[f] for f in futs if not f.done()]
+            self.caps_hit.append('watchdog: %d shard(s) not finished' % len(stuck))
+            for j in stuck[:8]:
+                raw = bytes(_SHM[j[3] * 1024:j[3] * 1024 + 1024]).rstrip(b'\0').decode(errors='replace')
+                self.add_violation({'family': _FAMS[j[0]].name, 'case': {'shard': jsonable(j[1]), 'last_published_case': raw},
+                                    'msg': 'shard did not finish within the %d s watchdog: a library call does not terminate in reasonable time' % WATCHDOG_S[self.tier],
+                                    'expected': 'termination', 'observed': 'still running', 'classifier': None})
+            self._kill(ex)
+            return False
+        return True
+
+    def run_families(self, fams):
+        if getattr(self, '_prepared', None) is None:
+            self.prepare(fams)
+        plain = [(i, f) for i, f in _FAMS.items() if isinstance(f, Family)]
+        bfs = [(i, f) for i, f in _FAMS.items() if isinstance(f, BFSFamily)]
+        jobs = []
+        fresh_jobs = []
+        slot = 0
+        for i, f in plain:
+            shards = list(f.shards(self.tier))
+            self.fam_stats[f.name] = {'engine': f.engine, 'shards': len(shards), 'evaluations': 0, 'nontrivial': 0,
+                                      'nontrivial_rule': f.nontrivial_rule, 'outcomes': collections.Counter(),
+                                      'violations': 0, 'first': None, 'last': None, 'cpu_s': 0.0}
+            for s in shards:
+                (fresh_jobs if getattr(f, 'fresh', False) else jobs).append((i, s, self.tier, slot % 4096, 0))
+                slot += 1
+        # VERIF_SEED only rotates the order in which shards are handed out
+        if jobs:
+            k = self.seed % len(jobs)
+            jobs = jobs[k:] + jobs[:k]
+        if fresh_jobs:
+            k = self.seed % len(fresh_jobs)
+            fresh_jobs = fresh_jobs[k:] + fresh_jobs[:k]
+        try:
+            if fresh_jobs:
+                # E4 first, in the pool that was started before anything touched the library
+                with self.fresh_ex as ex:
+                    if not self._run_jobs(ex, fresh_jobs):
+                        return
+            with ProcessPoolExecutor(max_workers=NPROC, mp_context=_MP) as ex:
+                if jobs and not self._run_jobs(ex, jobs):
                     return
                 for i, f in bfs:
                     try:
@@ -338,22 +454,18 @@ class Run:
                         self.caps_hit.append('watchdog: BFS level not finished')
                         self.add_violation({'family': f.name, 'case': {'depth_reached': self.max_depth}, 'msg': 'BFS level did not finish within the %d s watchdog: a library call does not terminate in reasonable time' % WATCHDOG_S[self.tier],
                                             'expected': 'termination', 'observed': 'still running', 'classifier': None})
-                        for proc in list(getattr(ex, '_processes', {}).values()):
-                            try:
-                                proc.kill()
-                            except Exception:  # noqa
-                                pass
+                        self._kill(ex)
                         return
-            except BrokenProcessPool:
-                cur = []
-                for s in range(min(slot, 4096)):
-                    raw = bytes(_SHM[s * 1024:s * 1024 + 1024]).rstrip(b'\0')
-                    if raw:
-                        cur.append(raw.decode(errors='replace'))
-                self.add_violation({'family': 'worker-crash', 'case': cur[-32:], 'msg': 'a worker process died',
-                                    'expected': 'every verification returns or raises',
-                                    'observed': 'worker killed (segfault / abort); candidates = published cases',
-                                    'classifier': None})
+        except BrokenProcessPool:
+            cur = []
+            for s in range(min(slot, 4096)):
+                raw = bytes(_SHM[s * 1024:s * 1024 + 1024]).rstrip(b'\0')
+                if raw:
+                    cur.append(raw.decode(errors='replace'))
+            self.add_violation({'family': 'worker-crash', 'case': cur[-32:], 'msg': 'a worker process died',
+                                'expected': 'every verification returns or raises',
+                                'observed': 'worker killed (segfault / abort); candidates = published cases',
+                                'classifier': None})
 
     def _absorb(self, r):
         f = _FAMS[r['fam']]
